@@ -630,6 +630,25 @@ def gen_multiroot(rng):
             files['%s/util.py' % names[k]] = '\n' * k + 'marker = %d\nas_module_%d = 1\n' % (k, k)
         else:
             files['%s/util/__init__.py' % names[k]] = '\n' * k + 'marker = %d\nas_package_%d = 1\n' % (k, k)
+    # module / sub-package names that are equal up to case, in one directory and across roots
+    pools = [('Config', 'config', 'CONFIG', 'cOnfig'), ('Queue', 'queue', 'QUEUE'), ('Handlers', 'handlers', 'HANDLERS'),
+             ('Io_', 'io_', 'IO_'), ('Types_', 'types_', 'TYPES_')]
+    ck = sorted(rng.sample(range(n), rng.randint(1, min(2, n))))
+    for k in ck:
+        files['%s/cased/__init__.py' % names[k]] = 'origin = %d\n' % k
+        for pool in rng.sample(pools, rng.randint(2, 3)):
+            for nm in rng.sample(pool, rng.randint(2, min(4, len(pool)))):
+                if rng.random() < 0.3:
+                    files['%s/cased/%s/__init__.py' % (names[k], nm)] = 'kind = "package"\n'
+                    for sub in rng.sample(pools[0], 2):
+                        files['%s/cased/%s/%s.py' % (names[k], nm, sub)] = 'leaf = 1\n'
+                else:
+                    files['%s/cased/%s.py' % (names[k], nm)] = 'kind = "module"\nname = %r\n' % nm
+    top = rng.choice((('Settings', 'settings', 'SETTINGS'), ('Local', 'local_', 'LOCAL_', 'Local_')))
+    top = [x for x in top if not x.endswith('_')] if top[0] == 'Settings' else [x for x in top if x != 'Local']
+    for nm in rng.sample(top, rng.randint(2, len(top))):
+        files['%s/%s.py' % (names[rng.randrange(n)], nm)] = 'top = %r\n' % nm
+    nested = sorted(set(f.split('/')[2] for f in files if f.count('/') == 3 and '/cased/' in f and f.endswith('/__init__.py')))
     for k in range(n):
         files.setdefault('%s/unique_%d.py' % (names[k], k), 'u = %d\n' % k)
     star = ('from shared import *\nfrom pkg.common import *\nimport os\nprint(handler, value, %s, %s)\n' % (
@@ -653,8 +672,16 @@ def gen_multiroot(rng):
         ('import util\nutil.\n', (2, 5), 'assist', 'util.'),
         ('import util\nutil.marker\n', (2, 11), 'location', 'util.marker'),
         ('import \n', (1, 7), 'assist', 'import |'),
+        ('from \n', (1, 5), 'assist', 'from |'),
+        ('import cased.\n', (1, 13), 'assist', 'import cased.|'),
+        ('from cased.\n', (1, 11), 'assist', 'from cased.|'),
+        ('from cased import \n', (1, 18), 'assist', 'from cased import |'),
+        ('import os\nimport cased.\n', (2, 13), 'assist', 'import cased.| (second line)'),
         (star, None, 'lint', 'lint of star imports'),
     ]
+    for nm in nested[:2]:
+        reqs.append(('import cased.%s.\n' % nm, (1, len('import cased.%s.' % nm)), 'assist', 'import cased.<Pkg>.|'))
+        reqs.append(('from cased.%s import \n' % nm, (1, len('from cased.%s import ' % nm)), 'assist', 'from cased.<Pkg> import |'))
     return specs, files, reqs
 
 
@@ -690,7 +717,8 @@ def build_gextra(part, rng, bdir, arg):
         meta = {'source': 'gmultiroot', 'own_files': None}
         filename = os.path.join(root, 'work', 'main.py')
         for text, pos, op, ex in reqs:
-            b.add(op, pid, text, pos, filename, force_domain=True, cand={'name': ex, 'what': 'multi-root', 'nalt': 2}, **meta)
+            b.add(op, pid, text, pos, filename, force_domain=True, cand={'name': ex, 'what': 'multi-root', 'nalt': 2},
+                  case_collision=('cased' in ex or ex in ('import |', 'from |')), **meta)
         for mod in ('shared', 'pkg', 'pkg.common', 'util'):
             b.add('members', pid, module=mod, mtext=json.dumps([mod, sorted(files.items())]), multi_exports=0,
                   cand={'name': mod, 'what': 'multi-root', 'nalt': 2}, **meta)
@@ -1006,6 +1034,11 @@ def compare_batch(part, b, passes, runs, spans_of):
             nontrivial = True
         elif what == 'multi-root':
             part.count('requests_on_module_present_in_several_roots')
+            if m.get('case_collision') and 'r' in first and op == 'assist':
+                low = collections.Counter(x.lower() for x in first['r'][1])
+                if any(v > 1 for v in low.values()):
+                    part.count('assist_requests_listing_names_equal_up_to_case')
+                    part.hist('case_collisions_per_listing', min(8, sum(1 for v in low.values() if v > 1)))
             part.hist('multi_root_requests', '%s:%s' % (op, (m.get('cand') or {}).get('name')))
             nontrivial = True
         if op == 'location':
@@ -1242,7 +1275,7 @@ def main(run):
                  'requests_attribute_defined_by_2+_alternative_classes', 'requests_import_of_multiply_bound_member',
                  'multi_alternative_requests_with_inverted_visibility_order',
                  'alternative_lists_spanning_except_handler_and_try_else',
-                 'requests_on_module_present_in_several_roots',
+                 'requests_on_module_present_in_several_roots', 'assist_requests_listing_names_equal_up_to_case',
                  'module_member_requests_with_multiply_bound_export', 'assist_requests', 'lint_requests'),
         assumptions=[
             'every process that evaluates a batch sees the same request sequence on Project objects created at first use, '
